@@ -41,6 +41,8 @@ type Ctx struct {
 	anchorHint     *ssa.Function // the function a rule enumerated last (context for helpers shared by several callers)
 	inHint      bool
 	noImports   bool
+	alias       map[*ssa.Function]string // renamed function → its name in the pinned tree
+	Renamed     []string
 	nonNegMemo     map[*types.Var]int
 	calledOnlyMemo map[*ssa.Function]bool
 	siteDone       map[*ssa.Function]bool
@@ -101,6 +103,8 @@ func loadCtx(dir string, pkgPath string) (*Ctx, error) {
 	}
 	c.allKnown = pkgPath != flagsPath
 	c.collectFuncs()
+	c.resolveRenames()
+	c.resolveFieldRenames()
 	c.collectConsts()
 	return c, nil
 }
@@ -175,6 +179,15 @@ func (c *Ctx) collectConsts() {
 func (c *Ctx) fname(f *ssa.Function) string {
 	if f == nil {
 		return "<nil>"
+	}
+	if len(c.alias) > 0 {
+		root := f
+		for root.Parent() != nil {
+			root = root.Parent()
+		}
+		if a, ok := c.alias[root]; ok {
+			return a + strings.TrimPrefix(f.RelString(c.Types), root.RelString(c.Types))
+		}
 	}
 	return f.RelString(c.Types)
 }
@@ -257,9 +270,147 @@ func (c *Ctx) Field(typeName, field string) *types.Var {
 		return nil
 	}
 	for i := 0; i < st.NumFields(); i++ {
-		if st.Field(i).Name() == field {
+		if fieldVarName(st.Field(i)) == field {
 			return st.Field(i)
 		}
 	}
 	return nil
+}
+
+// ---- renamed functions ---------------------------------------------------------
+//
+// Rules are anchored at functions of the pinned tree by name. Renaming an unexported function is a
+// behaviour-preserving edit; so that it does not surface as an "unresolved anchor", a missing known
+// function is matched with the only function of the current tree that is not known and has exactly the
+// same receiver and signature. The match is recorded (Ctx.Renamed) and reported in the evidence; with no
+// candidate or several, the anchor stays unresolved and the check fails as before.
+
+func sigKey(c *Ctx, f *ssa.Function) string {
+	q := func(p *types.Package) string {
+		if p == c.Types {
+			return ""
+		}
+		return p.Path()
+	}
+	s := types.TypeString(f.Signature, q)
+	if r := f.Signature.Recv(); r != nil {
+		s = "(" + types.TypeString(r.Type(), q) + ")." + s
+	}
+	return s
+}
+
+func (c *Ctx) resolveRenames() {
+	if c.allKnown {
+		return
+	}
+	var missing []string
+	for name := range knownSigs {
+		if _, ok := c.ByNam[name]; !ok {
+			missing = append(missing, name)
+		}
+	}
+	if len(missing) == 0 {
+		return
+	}
+	sort.Strings(missing)
+	var fresh []*ssa.Function
+	for _, f := range c.Funcs {
+		if f.Parent() == nil && !knownFuncs[f.RelString(c.Types)] {
+			fresh = append(fresh, f)
+		}
+	}
+	taken := map[*ssa.Function]bool{}
+	for _, name := range missing {
+		var cand []*ssa.Function
+		for _, f := range fresh {
+			if !taken[f] && sigKey(c, f) == knownSigs[name] {
+				cand = append(cand, f)
+			}
+		}
+		// several missing functions may share a signature: only an unambiguous pairing is accepted
+		same := 0
+		for _, other := range missing {
+			if knownSigs[other] == knownSigs[name] {
+				same++
+			}
+		}
+		if len(cand) != 1 || same != 1 {
+			continue
+		}
+		f := cand[0]
+		taken[f] = true
+		if c.alias == nil {
+			c.alias = map[*ssa.Function]string{}
+		}
+		old := f.RelString(c.Types)
+		c.alias[f] = name
+		c.Renamed = append(c.Renamed, old+" → treated as "+name+" (same receiver and signature, only candidate)")
+	}
+	if len(c.alias) == 0 {
+		return
+	}
+	// re-index under the canonical names (closures follow their parent)
+	c.ByNam = map[string]*ssa.Function{}
+	for _, f := range c.Funcs {
+		c.ByNam[c.fname(f)] = f
+	}
+}
+
+// resolveFieldRenames: an unexported field of a package struct that disappeared by name while the struct
+// gained exactly one unknown field of the same type is that field renamed.
+func (c *Ctx) resolveFieldRenames() {
+	if c.allKnown {
+		return
+	}
+	for tn, known := range knownFields {
+		obj := c.Types.Scope().Lookup(tn)
+		if obj == nil {
+			continue
+		}
+		st, ok := obj.Type().Underlying().(*types.Struct)
+		if !ok {
+			continue
+		}
+		q := func(p *types.Package) string {
+			if p == c.Types {
+				return ""
+			}
+			return p.Path()
+		}
+		knownNames := map[string]string{}
+		for _, kf := range known {
+			parts := strings.SplitN(kf, "\x00", 2)
+			knownNames[parts[0]] = parts[1]
+		}
+		have := map[string]bool{}
+		var fresh []*types.Var
+		for i := 0; i < st.NumFields(); i++ {
+			f := st.Field(i)
+			have[f.Name()] = true
+			if _, isKnown := knownNames[f.Name()]; !isKnown && !f.Exported() {
+				fresh = append(fresh, f)
+			}
+		}
+		for name, typ := range knownNames {
+			if have[name] {
+				continue
+			}
+			var cand []*types.Var
+			for _, f := range fresh {
+				if _, used := fieldAlias[f]; !used && types.TypeString(f.Type(), q) == typ {
+					cand = append(cand, f)
+				}
+			}
+			sameMissing := 0
+			for n2, t2 := range knownNames {
+				if !have[n2] && t2 == typ {
+					sameMissing++
+				}
+			}
+			if len(cand) == 1 && sameMissing == 1 {
+				fieldAlias[cand[0]] = name
+				c.Renamed = append(c.Renamed, tn+"."+cand[0].Name()+" → treated as field "+tn+"."+name+" (same type, only candidate)")
+			}
+		}
+	}
 }
